@@ -219,7 +219,7 @@ mutant('C10-exp-core-ge', ['C10', 'C03'], 'R03.d', EXF, "np.where(r>self.sigma,m
 mutant('C10-hs-tail', 'C10', 'R10.d', HSF, "np.where(r>sigma,0.0,high_value)", "np.where(r>sigma,1.0,high_value)")
 mutant('C10-hs-core-zero', ['C10', 'C03'], 'R03.d', HSF, "np.where(r>sigma,0.0,high_value)", "np.where(r>sigma,0.0,0.0*high_value)")
 mutant('C10-wca-rcut', 'C10', 'R10.w', WCF, "self.rcut = self.sigma * 2**(1.0/6.0)", "self.rcut = self.sigma * 2**(1.0/3.0)")
-mutant('C10-wca-stale-rcut', 'C10', 'R10.w', WCF, "        self.rcut = self.sigma * 2**(1.0/6.0)\n        return", "        if self.rcut is True:\n            self.rcut = self.sigma * 2**(1.0/6.0)\n        return")
+mutant('C10-wca-stale-rcut', 'C10', 'R10.h', WCF, "        self.rcut = self.sigma * 2**(1.0/6.0)\n        return", "        if self.rcut is True:\n            self.rcut = self.sigma * 2**(1.0/6.0)\n        return")
 mutant('C10-writes-r', 'C10', 'R10.p', LJF, "        magnitude = self.funk(r,self.sigma)\n        \n        if self.rcut is not None:", "        r /= self.sigma\n        magnitude = self.funk(r,1.0)\n        \n        if self.rcut is not None:")
 twin('C10-twin-power', 'C10', LJF, "((s/r)**(12.0) - (s/r)**(6.0))", "(np.power(s/r,12.0) - s**6/r**6)")
 twin('C10-twin-where', ['C10', 'C03'], HCF, "        magnitude[r<=self.sigma] = self.high_value\n", "        magnitude = np.where(r<=self.sigma,self.high_value,magnitude)\n")
@@ -288,3 +288,18 @@ twinN('C16-twin-beta-property', ['C16', 'C01', 'C04'], [
 mutantN('C16-beta-stale', ['C16', 'C01', 'C04'], 'R16.w', [
     (SY, "        self.kT = kT\n", "        self.kT = kT\n        self.beta = 1.0/kT\n"),
     (PR, "                self.sys.closure[t1,t2].potential = U.calculate(self.sys.domain.r) / self.sys.kT\n            elif", "                self.sys.closure[t1,t2].potential = U.calculate(self.sys.domain.r) * self.sys.beta\n            elif")])
+
+# history rules: caches that are keyed on a *copy* and return a copy are fine (twin); aliasing ones are not (mutant)
+NF_ = OMD + 'NonOverlappingFreelyJointedChain.py'
+twinN('C11-twin-nfjc-copy-cache', 'C11', [
+    (NF_, "        self.value = None\n", "        self.value = None\n        self._k = None\n"),
+    (NF_, "        self.value = np.zeros_like(k)\n", "        if (self._k is not None) and np.array_equal(k,self._k):\n            return np.copy(self.value)\n        self._k = np.copy(k)\n        self.value = np.zeros_like(k)\n"),
+    (NF_, "        self.value  += self.FJC.calculate(k)\n\n\n        return self.value", "        self.value  += self.FJC.calculate(k)\n\n\n        return np.copy(self.value)")])
+mutantN('C11-nfjc-alias-cache', 'C11', 'R11.h', [
+    (NF_, "        self.value = None\n", "        self.value = None\n        self._k = None\n"),
+    (NF_, "        self.value = np.zeros_like(k)\n", "        if (self._k is not None) and np.array_equal(k,self._k):\n            return self.value\n        self._k = k\n        self.value = np.zeros_like(k)\n")])
+twin('C10-twin-wca-local-rcut', 'C10', WCF, "        self.rcut = self.sigma * 2**(1.0/6.0)\n        return", "        rc = self.sigma * 2**(1.0/6.0)\n        self.rcut = rc\n        return")
+mutant('C12-fromfile-cache', 'C12', 'R12.f', FF, "        fileData = np.loadtxt(self.fileName)", "        if getattr(self,'_done',False):\n            return self.value\n        self._done = True\n        fileData = np.loadtxt(self.fileName)")
+mutant('C13-dot-buffer', ['C13'], 'R13.h', MA, "            data = np.einsum('lij,ljk->lik', self.data, other.data)\n            return MatrixArray(", "            if getattr(self,'_buf',None) is None:\n                self._buf = np.empty(self.data.shape)\n            data = np.einsum('lij,ljk->lik', self.data, other.data, out=self._buf)\n            return MatrixArray(")
+mutant('C13-getcopy-class', 'C13', 'R13.h', MA, "        return MatrixArray(length=self.length,rank=self.rank,data=np.copy(self.data),space=self.space,types=self.types)", "        return self.__class__(length=self.length,rank=self.rank,data=np.copy(self.data),space=self.space,types=self.types)")
+mutant('C15-sigma-prefix', 'C15', 'R15.s', DI, "            for t2 in self.types:", "            for t2 in self.types[:self.types.index(t1)+1]:")
